@@ -178,15 +178,69 @@ fn kb_array_insert_into_nonarray() {
 }
 
 
-/// write_entry restricted to flat builders: identical Raw arm, the nested-builder arms must be unreachable
-pub(crate) fn write_entry_flat(buf: &mut Vec<u8>, entry: Entry<'_>) -> JEntry {
+// ------------------------------------------------------------------ drop-free transliterations of builder.rs
+/// write_entry on a borrowed entry (flat builders only: the nested-builder arms must be unreachable)
+fn write_entry_ref(buf: &mut Vec<u8>, entry: &Entry<'_>) -> JEntry {
     match entry {
         Entry::Raw(jentry, data) => {
             buf.extend_from_slice(data);
-            jentry
+            jentry.clone()
         }
         _ => panic!("nested builder entry in a flat harness"),
     }
+}
+
+/// ArrayBuilder::build_into, statement for statement, but iterating by index over the borrowed entries and never
+/// dropping them (CBMC otherwise explores the drop glue / nested arms of uninitialised `Entry` slots)
+impl<'a> ArrayBuilder<'a> {
+pub(crate) fn build_into_nodrop(self, buf: &mut Vec<u8>) -> usize {
+    let this = std::mem::ManuallyDrop::new(self);
+    let n = this.entries.len();
+    let header = ARRAY_CONTAINER_TAG | n as u32;
+    buf.write_u32::<BigEndian>(header).unwrap();
+
+    let mut array_len = 4 + n * 4;
+    let mut jentry_index = reserve_jentries(buf, n * 4);
+
+    let mut i = 0;
+    while i < n {
+        let jentry = write_entry_ref(buf, &this.entries[i]);
+        array_len += jentry.length as usize;
+        replace_jentry(buf, jentry, &mut jentry_index);
+        i += 1;
+    }
+    array_len
+}
+}
+
+impl<'a> ObjectBuilder<'a> {
+pub(crate) fn push_raw_nodrop(&mut self, key: &'a str, jentry: JEntry, data: &'a [u8]) {
+    std::mem::forget(self.entries.insert(key, Entry::Raw(jentry, data)));
+}
+
+pub(crate) fn build_into_nodrop(self, buf: &mut Vec<u8>) -> usize {
+    let this = std::mem::ManuallyDrop::new(self);
+    let n = this.entries.len();
+    let header = OBJECT_CONTAINER_TAG | n as u32;
+    buf.write_u32::<BigEndian>(header).unwrap();
+
+    let mut object_len = 4 + n * 8;
+    let mut jentry_index = reserve_jentries(buf, n * 8);
+
+    for (key, _) in this.entries.iter() {
+        let key_len = key.len();
+        object_len += key_len;
+        buf.extend_from_slice(key.as_bytes());
+        let jentry = JEntry::make_string_jentry(key_len);
+        replace_jentry(buf, jentry, &mut jentry_index)
+    }
+    for (_, entry) in this.entries.iter() {
+        let jentry = write_entry_ref(buf, entry);
+        object_len += jentry.length as usize;
+        replace_jentry(buf, jentry, &mut jentry_index);
+    }
+    object_len
+}
 }
 
 // ---- experiments
@@ -203,7 +257,7 @@ fn del_case(a: &[It; 4], doc: &Buf, k: i32) {
 #[kani::proof]
 #[kani::unwind(40)]
 #[kani::stub(crate::parser::parse_value, no_text_e)]
-#[kani::stub(crate::builder::write_entry, write_entry_flat)]
+#[kani::stub(crate::builder::ArrayBuilder::build_into, crate::builder::ArrayBuilder::build_into_nodrop)]
 fn kx_p1() {
     let a = [sc_num2().it, sc_float9().it, sc_str1().it, sc_null().it];
     let doc = layout_array(&a);
@@ -212,34 +266,23 @@ fn kx_p1() {
 #[kani::proof]
 #[kani::unwind(40)]
 #[kani::stub(crate::parser::parse_value, no_text_e)]
-#[kani::stub(crate::builder::write_entry, write_entry_flat)]
-fn kx_p3() {
-    let a = [sc_num2().it, sc_float9().it, sc_str1().it, sc_null().it];
-    let doc = layout_array(&a);
-    let sel: u8 = kani::any();
-    if sel == 0 { del_case(&a, &doc, 1); }
-    else if sel == 1 { del_case(&a, &doc, -1); }
-    else { del_case(&a, &doc, 5); }
+#[kani::stub(crate::builder::ArrayBuilder::build_into, crate::builder::ArrayBuilder::build_into_nodrop)]
+fn kx_s1() {
+    check_delete_by_index(&[sc_num2().it, sc_float9().it, sc_str1().it, sc_null().it]);
 }
-
+#[kani::proof]
+#[kani::unwind(40)]
+#[kani::stub(crate::parser::parse_value, no_text_e)]
+#[kani::stub(crate::builder::ArrayBuilder::build_into, crate::builder::ArrayBuilder::build_into_nodrop)]
+fn kx_s2() {
+    check_delete_by_index(&[sc_w2().it, sc_float9().it, sc_str1().it, sc_w0().it]);
+}
 fn ckey(s: &[u8]) -> It { It::from_parts(T_STRING, s) }
 #[kani::proof]
 #[kani::unwind(40)]
 #[kani::stub(crate::parser::parse_value, no_text_e)]
-#[kani::stub(crate::builder::write_entry, write_entry_flat)]
-fn kx_o2() {
-    let k = [ckey(b"b"), ckey(b"cc")];
-    let v = [sc_num2().it, sc_str1().it];
-    let doc = layout_object(&k, &v);
-    let mut buf = out_buf();
-    let r = delete_by_name(doc.as_slice(), "b", &mut buf);
-    assert!(r.is_ok());
-    assert!(appended(&buf, &layout_object(&[k[1]], &[v[1]])));
-}
-#[kani::proof]
-#[kani::unwind(40)]
-#[kani::stub(crate::parser::parse_value, no_text_e)]
-#[kani::stub(crate::builder::write_entry, write_entry_flat)]
+#[kani::stub(crate::builder::ObjectBuilder::build_into, crate::builder::ObjectBuilder::build_into_nodrop)]
+#[kani::stub(crate::builder::ObjectBuilder::push_raw, crate::builder::ObjectBuilder::push_raw_nodrop)]
 fn kx_o3() {
     let k = [ckey(b"b"), ckey(b"cc"), ckey(b"dd")];
     let v = [sc_num2().it, sc_str1().it, sc_null().it];
@@ -248,4 +291,23 @@ fn kx_o3() {
     let r = delete_by_name(doc.as_slice(), "cc", &mut buf);
     assert!(r.is_ok());
     assert!(appended(&buf, &layout_object(&[k[0], k[2]], &[v[0], v[2]])));
+}
+#[kani::proof]
+#[kani::unwind(40)]
+#[kani::stub(crate::parser::parse_value, no_text_e)]
+#[kani::stub(crate::builder::ObjectBuilder::build_into, crate::builder::ObjectBuilder::build_into_nodrop)]
+#[kani::stub(crate::builder::ObjectBuilder::push_raw, crate::builder::ObjectBuilder::push_raw_nodrop)]
+fn kx_o3s() {
+    let k = [key1(), key2(), key2()];
+    kani::assume(key_lt(&k[0], &k[1]) && key_lt(&k[1], &k[2]));
+    let v = [sc_num2().it, sc_str1().it, sc_null().it];
+    let doc = layout_object(&k, &v);
+    let mut buf = out_buf();
+    let nm = key2();
+    let r = delete_by_name(doc.as_slice(), key_str(&nm), &mut buf);
+    assert!(r.is_ok());
+    let mut wk = L::new(); let mut wv = L::new();
+    let mut i = 0;
+    while i < 3 { if !key_eq(&k[i], &nm) { wk.push(k[i]); wv.push(v[i]); } i += 1; }
+    assert!(appended(&buf, &layout_object(wk.items(), wv.items())));
 }
